@@ -177,7 +177,12 @@ def run(chk, ctx) -> None:
            got={' '.join(k): [T.show(x) for x in v] for k, v in sm.items()})
 
     # commentary: written as `<action> # <text>` (or `# <text>` alone) and read back as the raw text after `# `
-    rd = ctx.m.assigns(pa.node, "action[action.index('#') + 2:] if '#' in action else None")
+    rd = []
+    for n in ctx.m.ifs(pa.node, "'#' in action"):      # (a conditional expression is read as this statement form)
+        if len(n.body) == 1 and len(n.orelse) == 1 and ctx.m.assigns(n, "action[action.index('#') + 2:]") \
+                and isinstance(n.orelse[0], ast.Assign) and isinstance(n.orelse[0].value, ast.Constant) and n.orelse[0].value.value is None \
+                and ast.dump(n.body[0].targets[0]) == ast.dump(n.orelse[0].targets[0]):
+            rd.append(n)
     wr = [n for n in ast.walk(fgs.node) if isinstance(n, ast.JoinedStr) and [v.value for v in n.values if isinstance(v, ast.Constant)] in ([' # '], ['# '])
           and any(isinstance(v, ast.FormattedValue) and 'commentary' in ast.unparse(v.value) for v in n.values)]
     chk.ob('C16.commentary', 'parse_action~from_game_state', len(rd) == 1 and len(wr) == 2, pa.loc,
